@@ -632,3 +632,103 @@ M2('c17-disconnected-verbatim-one-site-guarded', 'C17', 'R9', [
 """},
     {'file': WS, 'old': "            return errors.WebSocketDisconnected(close_code)", 'new': "            return errors.WebSocketDisconnected(close_code or 1000)"},
 ])
+
+# ------------------------------------------------------------------ R1 converse: a recognised connection loss is recorded in the state (wave 7, s7-c17-1)
+_MARK_OLD = """                self._state = _WebSocketState.CLOSED
+                if isinstance(translated_ex, errors.WebSocketDisconnected):
+                    self._close_code = translated_ex.code
+"""
+# the seed: "the receiver flags the lost connection" - there is no pump (and no flag) for max_receive_queue=0
+M('c17-failed-send-loss-not-recorded', 'C17', 'R1', WS, _MARK_OLD, """                if isinstance(translated_ex, errors.WebSocketDisconnected):
+                    self._close_code = translated_ex.code
+""")
+# recorded for the rejected subprotocol only - exactly the case that is not a connection loss
+M('c17-failed-send-loss-recorded-for-other-errors-only', 'C17', 'R1', WS, _MARK_OLD, """                if isinstance(translated_ex, errors.WebSocketDisconnected):
+                    self._close_code = translated_ex.code
+                else:
+                    self._state = _WebSocketState.CLOSED
+""")
+# recorded only when the pump already saw the disconnect (never, in unbuffered mode)
+M('c17-failed-send-loss-recorded-only-under-receiver-flag', 'C17', 'R1', WS, _MARK_OLD, """                if self._buffered_receiver.client_disconnected:
+                    self._state = _WebSocketState.CLOSED
+                if isinstance(translated_ex, errors.WebSocketDisconnected):
+                    self._close_code = translated_ex.code
+""")
+# delegated to a helper that copies the receiver's view (the s7-c18-1 helper, used on the send side)
+M2('c17-failed-send-loss-recorded-by-flag-copying-helper', 'C17', 'R1', [
+    {'file': WS, 'old': _MARK_OLD, 'new': """                self._sync_client_disconnected()
+                if isinstance(translated_ex, errors.WebSocketDisconnected):
+                    self._close_code = translated_ex.code
+"""},
+    {'file': WS, 'old': "    def _require_accepted(self) -> None:\n", 'new': """    def _sync_client_disconnected(self) -> None:
+        receiver = self._buffered_receiver
+        if receiver.client_disconnected:
+            self._state = _WebSocketState.CLOSED
+
+    def _require_accepted(self) -> None:
+"""},
+])
+
+# ------------------------------------------------------------------ R1/C18 R8: a disconnect event in hand closes the socket with the event's code (wave 7, s7-c18-1)
+_RECV_DISC_OLD = """            self._state = _WebSocketState.CLOSED
+            self._close_code = event.get('code', WSCloseCode.NORMAL)
+            raise errors.WebSocketDisconnected(self._close_code)
+"""
+_SYNC_HELPER = {'file': WS, 'old': "    def _require_accepted(self) -> None:\n", 'new': """    def _sync_client_disconnected(self) -> None:
+        receiver = self._buffered_receiver
+        if receiver.client_disconnected:
+            self._state = _WebSocketState.CLOSED
+            self._close_code = receiver.client_disconnected_code
+
+    def _require_accepted(self) -> None:
+"""}
+# the seed: state and code copied from the receiver's flag, which only the pump raises
+M2('c17-receive-disconnect-synced-from-receiver-flag', 'C17', 'R1', [
+    {'file': WS, 'old': _RECV_DISC_OLD, 'new': """            self._sync_client_disconnected()
+            raise errors.WebSocketDisconnected(self._close_code)
+"""}, _SYNC_HELPER], also=('C18',))
+# the state is recorded, the code still comes from the receiver (None without a pump)
+M('c17-receive-disconnect-code-from-receiver', 'C17', 'R1', WS, _RECV_DISC_OLD, """            self._state = _WebSocketState.CLOSED
+            self._close_code = self._buffered_receiver.client_disconnected_code
+            raise errors.WebSocketDisconnected(self._close_code)
+""", also=('C18',))
+# the code is the event's, the state is left to the receiver's flag
+M2('c17-receive-disconnect-state-from-receiver-flag', 'C17', 'R1', [
+    {'file': WS, 'old': _RECV_DISC_OLD, 'new': """            self._sync_client_disconnected()
+            self._close_code = event.get('code', WSCloseCode.NORMAL)
+            raise errors.WebSocketDisconnected(self._close_code)
+"""}, _SYNC_HELPER], also=('C18',))
+
+# ------------------------------------------------------------------ R10: what is put into the events (wave 7, s7-c17-3)
+_SNAP_OLD = """                'bytes': bytes(payload),
+"""
+_SNAP_CHECK = """            raise TypeError('payload must be a byte string')
+
+"""
+# the seed: only memoryview is materialised, a bytearray is handed over as is
+M2('c17-send-data-only-memoryview-materialised', 'C17', 'R10', [
+    {'file': WS, 'old': _SNAP_CHECK, 'new': """            raise TypeError('payload must be a byte string')
+
+        if isinstance(payload, memoryview):
+            payload = payload.tobytes()
+
+"""},
+    {'file': WS, 'old': _SNAP_OLD, 'new': "                'bytes': payload,\n"},
+])
+M('c17-send-data-payload-passed-through', 'C17', 'R10', WS, _SNAP_OLD, "                'bytes': payload,\n")
+# "bytes-like is good enough": the copy is skipped for bytes AND bytearray
+M('c17-send-data-snapshot-skipped-for-bytearray', 'C17', 'R10', WS, _SNAP_OLD,
+  "                'bytes': payload if isinstance(payload, (bytes, bytearray)) else bytes(payload),\n")
+# the snapshot is taken for the wrong branch
+M('c17-send-data-snapshot-test-inverted', 'C17', 'R10', WS, _SNAP_OLD,
+  "                'bytes': bytes(payload) if type(payload) is bytes else payload,\n")
+# zero-copy view of the caller's buffer
+M('c17-send-data-memoryview-of-payload', 'C17', 'R10', WS, _SNAP_OLD, "                'bytes': memoryview(payload),\n")
+# send_media: the object is not serialized / serialized by the other handler / the payload type test is inverted
+M('c17-send-media-text-not-serialized', 'C17', 'R10', WS, "                    'text': self._mh_text_serialize(media),", "                    'text': media,")
+M('c17-send-media-text-by-binary-handler', 'C17', 'R10', WS, "                    'text': self._mh_text_serialize(media),", "                    'text': self._mh_bin_serialize(media),")
+M('c17-send-media-payload-type-test-inverted', 'C17', 'R10', WS, "        if payload_type is WebSocketPayloadType.TEXT:", "        if payload_type is not WebSocketPayloadType.TEXT:")
+# an undocumented key in the close / accept event
+M('c17-close-event-undocumented-key', 'C17', 'R10', WS, "        response = {'type': EventType.WS_CLOSE, 'code': code}",
+  "        response = {'type': EventType.WS_CLOSE, 'code': code, 'status': 403}")
+M('c17-accept-event-undocumented-key', 'C17', 'R10', WS, "            event['subprotocol'] = subprotocol", "            event['subprotocols'] = [subprotocol]")
